@@ -35,12 +35,21 @@ fn bind(root: &'static str) -> CallFn {
     let sd: Box<dyn Fn(Request, Arc<()>, &str) -> Response + Send + Sync> = Box::new(serve_dir::<()>(root));
     let sa: Box<dyn Fn(Request, Arc<()>) -> Response + Send + Sync> = Box::new(serve_as_file_path::<()>(root));
     let (nocache, cache_state) = (mk_state(0), mk_state(16 << 20));
+    // <base>/otherhost mirrors <base>/root with canary-tagged contents (see staticlab::build_tree)
+    let other_root: &'static str = Box::leak(format!("{}/otherhost", std::path::Path::new(root.trim_end_matches('/')).parent().unwrap().to_str().unwrap()).into_boxed_str());
     Box::new(move |h, uri, route, cache| {
         let req = mk_request(uri);
         catch_unwind(AssertUnwindSafe(|| match h {
             Handler::ServeDir => sd(req, Arc::new(()), route),
             Handler::ServeAsFilePath => sa(req, Arc::new(())),
-            Handler::Directory => directory_handler(req, if cache { cache_state.clone() } else { nocache.clone() }, root, route, 0),
+            Handler::Directory if cache => {
+                // two virtual hosts share the cache: the other host (same relative paths, foreign contents) asks first,
+                // then the host under test; which of the two is the default host (index 0) alternates
+                let (this_host, other_host) = if hvcommon::util::fnv(uri.as_bytes()) % 2 == 0 { (0, 1) } else { (1, 0) };
+                let _ = directory_handler(mk_request(uri), cache_state.clone(), other_root, route, other_host);
+                directory_handler(req, cache_state.clone(), root, route, this_host)
+            }
+            Handler::Directory => directory_handler(req, nocache.clone(), root, route, 0),
         }))
         .map(simple)
         .map_err(|p| panic_msg(&*p))
